@@ -39,6 +39,8 @@ const K_D3A: &str = "macro-invocation-omit-leaks-into-body";
 const K_D3B: &str = "macro-body-modifier-leaks-to-enclosing-step";
 /// same root cause as K_D3B: `inv=true` directly in front of a step delimiter -> BadParam("inv", "true|...")
 const K_D4: &str = "pipeline-rejected-inv=true-before-delimiter";
+/// a definition instantiated after a macro was re-registered still runs the earlier registration
+const K_STALE: &str = "instantiation-ignores-reregistration";
 const K_VALUES: &str = "pipeline-differs-from-sequential";
 const K_COUNT: &str = "pipeline-count-differs";
 const K_REJECT: &str = "well-formed-rejected";
@@ -134,6 +136,7 @@ const DELIM: [&str; 12] = [
     " @ ", " @ ", " @ ", "@", " @", "@ ", "\n@ ", "\n  @ ", " # only one way\n@ ", "\n\n@ ", "\r\n@ ", "\n# block comment\n@ ",
 ];
 const DELIM_SPICY: &str = " # omit_fwd omit_inv and inv are modifiers\n@ ";
+const SIGIL: [&str; 9] = [":", ":", ":", ":", ":", ":", " : ", ": ", " :"];
 const LEAD: [&str; 4] = ["@ ", "@", "\n@ ", "  @  "];
 
 // ---- rendering -----------------------------------------------------------------------------
@@ -240,7 +243,12 @@ fn render_toks(toks: &[Param], l: &mut Lay, piped: bool) -> String {
         if i > 0 {
             out.push_str(if piped { GAP_PIPE[l.pick(GAP_PIPE.len())] } else { GAP_SINGLE[l.pick(GAP_SINGLE.len())] });
         }
-        out.push_str(&t.0);
+        if t.1.is_none() && t.0.contains(':') {
+            // a macro name: blanks around the sigil are not significant ("foo: bar -> foo:bar")
+            out.push_str(&t.0.replace(':', SIGIL[l.pick(SIGIL.len())]));
+        } else {
+            out.push_str(&t.0);
+        }
         if let Some(v) = &t.1 {
             out.push_str(EQ[l.pick(EQ.len())]);
             out.push_str(v);
@@ -1063,6 +1071,22 @@ fn build(macros: &[RawBody], main: &RawBody, probes: Vec<P4>, nprobes: u8, kn: K
     case
 }
 
+/// plain layout, no omit_* on or inside macros, `inv` only as the bare word after the name
+fn strip_plain(b: &mut Body, inside_macro: bool) {
+    b.lay = 0;
+    b.spicy = false;
+    for s in b.steps.iter_mut() {
+        s.lay = 0;
+        if inside_macro || matches!(s.target, Target::Macro(_)) {
+            s.omit_fwd = None;
+            s.omit_inv = None;
+        }
+        if s.inv.is_some() {
+            s.inv = Some(Sp::Suffix);
+        }
+    }
+}
+
 /// Remove the classes listed as known findings by construction (and say so in `case.excluded`).
 fn sanitize(case: &mut Case, kn: Known) {
     let mut excluded: BTreeSet<&'static str> = BTreeSet::new();
@@ -1191,20 +1215,7 @@ fn sanitize(case: &mut Case, kn: Known) {
         if still {
             // last resort: plain layout, no omit_* on or inside macros, no =true spellings
             excluded.insert("fallback");
-            let strip = |b: &mut Body, inside_macro: bool| {
-                b.lay = 0;
-                b.spicy = false;
-                for s in b.steps.iter_mut() {
-                    s.lay = 0;
-                    if inside_macro || matches!(s.target, Target::Macro(_)) {
-                        s.omit_fwd = None;
-                        s.omit_inv = None;
-                    }
-                    if s.inv.is_some() {
-                        s.inv = Some(Sp::Suffix);
-                    }
-                }
-            };
+            let strip = strip_plain;
             for i in 0..nm {
                 strip(&mut case.macros[i].body, true);
             }
@@ -1370,6 +1381,216 @@ fn one_way_matrix_case(i: usize) -> Case {
     }
 }
 
+// ---- registration histories over one long-lived context --------------------------------------------
+
+#[derive(Clone, Debug, Serialize, Deserialize)]
+struct Round {
+    target: usize, // macro re-registered (alone) after this round's instantiations
+    body: Body,
+}
+
+#[derive(Clone, Debug, Serialize, Deserialize)]
+struct HistCase {
+    plain: bool, // Plain instead of Minimal
+    macros: Vec<MacroDef>,
+    defs: Vec<Body>,
+    rounds: Vec<Round>,
+    probes: Vec<P4>,
+}
+
+fn build_body(rb: &RawBody, cand: &[usize], min_piped: u8) -> Body {
+    let piped = rb.kind >= min_piped;
+    let no_taint = vec![false; NAMES.len()];
+    let one = |rs: &RawStep, omits: bool| {
+        let mut rs = rs.clone();
+        rs.ow = 255; // invertible operators only: a re-registration must not make an inverted macro one-way
+        build_step(&rs, cand, &no_taint, omits)
+    };
+    let steps: Vec<Step> = if piped { rb.steps.iter().map(|rs| one(rs, true)).collect() } else { vec![one(&rb.steps[0], false)] };
+    Body { steps, piped, lay: rb.lay, spicy: rb.spicy }
+}
+
+fn build_history(plain: bool, macros: &[RawBody], defs: &[RawBody], rounds: &[(u16, RawBody)], probes: Vec<P4>, np: u8, kn: Known) -> HistCase {
+    let mut lib: Vec<MacroDef> = vec![];
+    let mut level: Vec<usize> = vec![];
+    for (i, rb) in macros.iter().enumerate().take(NAMES.len()) {
+        let cand: Vec<usize> = (0..i).filter(|j| level[*j] < 3).collect();
+        let body = build_body(rb, &cand, 3);
+        level.push(1 + body.steps.iter().map(|s| if let Target::Macro(m) = s.target { level[m] } else { 0 }).max().unwrap_or(0));
+        lib.push(MacroDef { name: NAMES[i].to_string(), body });
+    }
+    let all: Vec<usize> = (0..lib.len()).collect();
+    let mut ds: Vec<Body> = defs.iter().map(|rb| build_body(rb, &all, 1)).collect();
+    let mut rs: Vec<Round> = rounds
+        .iter()
+        .map(|(sel, rb)| {
+            let target = pick(*sel, lib.len());
+            // the new body obeys the same rule as the old one: only earlier macros (no recursion)
+            let cand: Vec<usize> = (0..target).filter(|j| level[*j] < 3).collect();
+            Round { target, body: build_body(rb, &cand, 3) }
+        })
+        .collect();
+    if kn.d1 || kn.d3a || kn.d3b || kn.d4 {
+        // known classes are kept out of this section in the bluntest way
+        for m in lib.iter_mut() {
+            strip_plain(&mut m.body, true);
+        }
+        for d in ds.iter_mut() {
+            strip_plain(d, false);
+        }
+        for r in rs.iter_mut() {
+            strip_plain(&mut r.body, true);
+        }
+    }
+    let mut probes = probes;
+    probes.truncate(1 + pick((np as u16) << 8, 4));
+    HistCase { plain, macros: lib, defs: ds, rounds: rs, probes }
+}
+
+fn history_case(kn: Known) -> impl Strategy<Value = HistCase> {
+    (
+        any::<bool>(),
+        prop::collection::vec(raw_body(3, 0.75), 2..=NAMES.len()),
+        prop::collection::vec(raw_body(3, 0.85), 1..=3),
+        prop::collection::vec((any::<u16>(), raw_body(3, 0.75)), 1..=3),
+        prop::collection::vec(probe(), 4),
+        any::<u8>(),
+    )
+        .prop_map(move |(plain, macros, defs, rounds, probes, np)| build_history(plain, &macros, &defs, &rounds, probes, np, kn))
+}
+
+/// macros named as a step of the body itself / reached at any depth
+fn direct_refs(b: &Body) -> BTreeSet<usize> {
+    b.steps.iter().filter_map(|s| if let Target::Macro(m) = s.target { Some(m) } else { None }).collect()
+}
+
+fn run_history<C: Context>(ctx: &mut C, case: &HistCase, rec: &mut Rec) -> CaseResult {
+    let mut lib = case.macros.clone();
+    for m in &lib {
+        ctx.register_resource(&m.name, &render_body(&m.body, &lib));
+    }
+    // the reference applies bare elementary operators in a context of its own that never sees a macro
+    let mut refx = Exec { ctx: Minimal::new(), cache: BTreeMap::new() };
+    let mut earlier: Vec<Vec<MacroDef>> = vec![];
+    let n = case.probes.len();
+    let mut sensitive_indirect = false;
+    let same = |a: &(Vec<Coor4D>, usize), b: &(Vec<Coor4D>, usize)| vec_bits_eq(&a.0, &b.0) && a.1 == b.1;
+    for round in 0..=case.rounds.len() {
+        for (di, d) in case.defs.iter().enumerate() {
+            let tmp = Case { macros: lib.clone(), main: d.clone(), probes: case.probes.clone(), excluded: vec![] };
+            let texts = render_case(&tmp);
+            let history = format!(
+                "context {}, instantiation of definition #{di} after {round} re-registration(s) ({}); every definition text was instantiated in each earlier round too",
+                if case.plain { "Plain" } else { "Minimal" },
+                case.rounds[..round].iter().map(|r| lib[r.target].name.clone()).collect::<Vec<_>>().join(", ")
+            );
+            let op = match try_op(ctx, &texts.main) {
+                Err(p) => vfail!(format!("panic-instantiate@{}", p.sig()), "instantiation panics: {} at {}:{}\n  {history}\n{}", p.msg, p.file, p.line, describe(&tmp, &texts)),
+                Ok(Err(e)) => vfail!(K_REJECT, "a well-formed definition is rejected: {e:?}\n  {history}\n{}", describe(&tmp, &texts)),
+                Ok(Ok(op)) => op,
+            };
+            let mut libv: Vec<(Vec<Coor4D>, usize)> = vec![];
+            for fwd in [true, false] {
+                let mut data = c4s(&case.probes);
+                match try_apply(ctx, op, dir_of(fwd), &mut data) {
+                    Err(p) => vfail!(format!("panic-apply@{}", p.sig()), "apply panics: {} at {}:{}\n  {history}\n{}", p.msg, p.file, p.line, describe(&tmp, &texts)),
+                    Ok(Err(e)) => vfail!("apply-error", "apply returned {e:?}\n  {history}\n{}", describe(&tmp, &texts)),
+                    Ok(Ok(c)) => libv.push((data, c)),
+                }
+            }
+            let traces = [plan(&tmp, &texts, Q::NONE, true), plan(&tmp, &texts, Q::NONE, false)];
+            let mut refs: Vec<(Vec<Coor4D>, usize)> = vec![];
+            for t in &traces {
+                match refx.run(t, &case.probes)? {
+                    RefOut::Done(dd, c) => refs.push((dd, c)),
+                    RefOut::Panicked(_) => {
+                        rec.count("skipped_standalone_panic", 1);
+                        return Ok(());
+                    }
+                }
+            }
+            if !(same(&libv[0], &refs[0]) && same(&libv[1], &refs[1])) {
+                // does the handle run an earlier registration state?
+                let mut stale: Option<usize> = None;
+                for (k, old) in earlier.iter().enumerate().rev() {
+                    let t2 = Case { macros: old.clone(), main: d.clone(), probes: vec![], excluded: vec![] };
+                    let tx2 = render_case(&t2);
+                    let mut all = true;
+                    for (j, fwd) in [true, false].into_iter().enumerate() {
+                        match refx.run(&plan(&t2, &tx2, Q::NONE, fwd), &case.probes)? {
+                            RefOut::Done(dd, c) => all &= same(&libv[j], &(dd, c)),
+                            RefOut::Panicked(_) => all = false,
+                        }
+                    }
+                    if all {
+                        stale = Some(k);
+                        break;
+                    }
+                }
+                let k = if same(&libv[0], &refs[0]) { 1 } else { 0 };
+                let (ld, lc) = &libv[k];
+                let (rd, rc) = &refs[k];
+                let what = match first_bits_diff(ld, rd) {
+                    Some(i) => format!("tuple {i}: input {}  library {}  sequential stand-alone steps (fresh context, current registrations) {}  (bitwise, tolerance 0)", fmt_c4(&c4(&case.probes[i])), fmt_c4(&ld[i]), fmt_c4(&rd[i])),
+                    None => format!("values agree, count: library {lc}, min over executed stand-alone steps {rc} (set size {n})"),
+                };
+                let (key, expl) = match stale {
+                    Some(k) => (K_STALE, format!("the handle behaves exactly like the definition under the registrations that were in force before re-registration #{}", k + 1)),
+                    None => (if first_bits_diff(ld, rd).is_some() { K_VALUES } else { K_COUNT }, "no earlier registration state reproduces the result either".to_string()),
+                };
+                vfail!(key, "{:?} application differs from the sequential application of the steps\n  {history}\n{}  {what}\n  reference executes: {}\n  {expl}", dir_of(k == 0), describe(&tmp, &texts), fmt_trace(&traces[k]));
+            }
+            rec.count("instantiations_checked", 1);
+        }
+        if round < case.rounds.len() {
+            let r = &case.rounds[round];
+            earlier.push(lib.clone());
+            // which definitions change their meaning through this re-registration, and is the macro named in them?
+            let before = lib.clone();
+            lib[r.target].body = r.body.clone();
+            for d in &case.defs {
+                let (a, b) = (Case { macros: before.clone(), main: d.clone(), probes: vec![], excluded: vec![] }, Case { macros: lib.clone(), main: d.clone(), probes: vec![], excluded: vec![] });
+                let (ta, tb) = (render_case(&a), render_case(&b));
+                if plan(&a, &ta, Q::NONE, true) != plan(&b, &tb, Q::NONE, true) || plan(&a, &ta, Q::NONE, false) != plan(&b, &tb, Q::NONE, false) {
+                    if direct_refs(d).contains(&r.target) {
+                        rec.class("meaning-changes:macro-named-in-definition");
+                    } else {
+                        rec.class("meaning-changes:macro-reached-through-other-macros-only");
+                        sensitive_indirect = true;
+                    }
+                }
+            }
+            let used_by_others = lib.iter().any(|m| direct_refs(&m.body).contains(&r.target));
+            rec.class(if direct_refs(&before[r.target].body).is_empty() && used_by_others {
+                "reregistered=leaf"
+            } else if used_by_others {
+                "reregistered=middle"
+            } else {
+                "reregistered=top-or-unused"
+            });
+            ctx.register_resource(&lib[r.target].name, &render_body(&r.body, &lib));
+        }
+    }
+    rec.class(if case.plain { "context=Plain" } else { "context=Minimal" });
+    rec.class(&format!("rounds={}", case.rounds.len()));
+    rec.class(&format!("definitions={}", case.defs.len()));
+    if sensitive_indirect && n > 0 {
+        let mut fp: Vec<String> = case.defs.iter().map(|d| canonical_body(d, &lib)).collect();
+        fp.extend(case.macros.iter().map(|m| canonical_body(&m.body, &lib)));
+        fp.extend(case.rounds.iter().map(|r| format!("{}:{}", r.target, canonical_body(&r.body, &lib))));
+        rec.nontrivial(&fp);
+    }
+    Ok(())
+}
+
+fn check_history(case: &HistCase, rec: &mut Rec) -> CaseResult {
+    if case.plain {
+        run_history(&mut Plain::new(), case, rec)
+    } else {
+        run_history(&mut Minimal::new(), case, rec)
+    }
+}
+
 // ---- known findings (read only) -----------------------------------------------------------------------
 
 fn load_known(root: &std::path::Path) -> BTreeSet<String> {
@@ -1398,6 +1619,7 @@ fn main() {
     run.assume("the reference instantiates every elementary step on its own through the same ctx.op / ctx.apply (same operator code): only composition, order, direction, omission and counting are checked, not the numerics of the operators");
     run.assume("omit_fwd / omit_inv are generated only on steps of a pipeline (a definition or macro body containing a step delimiter), as documented; omit_*=false and repeated modifiers are not generated; key=true forms only after the operator name");
     run.assume("an operator without an inverse (gravity, curvature) applied in the inverse direction behaves like its stand-alone instance: data untouched, count 0 (the placeholder of the library); inv is never put on such an operator nor on a macro with an unshielded one below it (NonInvertible / not promised)");
+    run.assume("a definition instantiated after register_resource means what its text means under the registrations in force at that moment (handles obtained earlier are not examined: C18)");
     run.assume("macros are invoked without ordinary arguments (argument passing is C04); stack/push/pop steps are excluded (C12)");
     run.assume("a case in which a stand-alone step panics is skipped (robustness is C09); NaN results are compared as equal whatever their payload");
 
@@ -1449,6 +1671,18 @@ fn main() {
             n,
             move || random_case(kn, 3, 3, 0.8),
             move |c: &Case, rec: &mut Rec| check(c, &known, rec),
+        );
+    }
+
+    // 4. registration histories: the same definition texts instantiated again after a macro was re-registered
+    {
+        let n = run.scale(6_000, 150_000);
+        run.section(
+            "registration-history",
+            "one long-lived context (Minimal or Plain): register 2..6 no-argument macros (nested up to depth 3, invertible operators only), then 1..3 rounds of {instantiate each of 1..3 definitions (pipelines / single steps over the macros, byte-identical text every round) and compare with the reference; re-register ONE macro (leaf, middle or top of the nesting) with a different body, leaving all others alone}, then instantiate all definitions once more; after every instantiation the handle must equal, bit for bit and in the counts, both directions, the reference interpreter run on the CURRENT registrations with stand-alone elementary steps instantiated in a separate context that never sees a macro; non-trivial = some re-registration changes the meaning of a definition that reaches the macro only through other macros; distinct by spelled ASTs",
+            n,
+            move || history_case(kn),
+            check_history,
         );
     }
 
